@@ -45,11 +45,14 @@ def check(tier):
         rep.violation("translator", {"theorem": "gen/TableGo.v cannot be regenerated", "detail": str(e)}, no_input=True)
         return rep.finish()
     ok, log = C.coq_make(["theories/Props/C20.vo"])
-    for t in ["nothing_after_the_error_matters", "tokens_before_the_error_were_shifted", "premature_end_example", "lexical_error_examples"]:
+    for t in ["nothing_after_the_error_matters", "tokens_before_the_error_were_shifted",
+              "ebnf_viable_check (Cfg/EbnfCert.v: witness trees and completion plans recomputed for the regenerated table)",
+              "the_shifted_prefix_can_be_completed", "the_shifted_prefix_begins_a_sentence", "tokens_before_a_lexical_error_begin_a_sentence",
+              "the_offending_token_admits_no_continuation", "a_prefix_and_its_completion", "premature_end_example", "lexical_error_examples"]:
         rep.obligation("Props/C20.v: " + t, ok)
     rep.cov["print_assumptions"] = "Closed under the global context x%d" % log.count("Closed under the global context") if ok else "n/a"
-    rep.cov["partial"] = ["viable prefix before the error / no continuation after it: decided per case by an exact Earley oracle for the "
-                          "documented grammar, not yet by a Coq theorem (needs lr_viable_prefix + lr_complete)"]
+    rep.cov["partial"] = ["the theorems speak about what the PARSER accepts; that this is the documented language is C04's tree classification, "
+                          "validated per explored case against the independent reader and an exact Earley oracle of the documented grammar"]
 
     hook = C.Hook()
     g = D.doc_grammar()
